@@ -174,6 +174,97 @@ def detect(ids, props):
     json.dump(results, open(results_path, "w", encoding="utf-8"), indent=1, ensure_ascii=False, sort_keys=True)
 
 
+NEG = os.path.join(HERE, "refactorings")
+
+
+def neg_ingest(src, rid):
+    """Store a behaviour-preserving refactoring (negative control) after confirming the suite passes with it."""
+    patch = os.path.join(src, "patch.diff")
+    meta = json.load(open(os.path.join(src, "meta.json"), encoding="utf-8"))
+    d = scratch()
+    try:
+        rc, out = apply(d, patch)
+        if rc != 0:
+            print(rid, "patch does not apply", out[-300:])
+            return 1
+        rc, p, f, out = cargo_test(d)
+        ok = rc == 0 and f == 0 and p >= 43
+        print(rid, "%d passed %d failed" % (p, f), "OK" if ok else "REJECTED")
+        if not ok:
+            return 1
+    finally:
+        shutil.rmtree(d, ignore_errors=True)
+    dst = os.path.join(NEG, rid)
+    os.makedirs(dst, exist_ok=True)
+    shutil.copy(patch, os.path.join(dst, "patch.diff"))
+    json.dump({"id": rid, "title": meta.get("title"), "kind": meta.get("kind"), "files_changed": meta.get("files_changed"),
+               "why_behaviour_preserving": meta.get("why_behaviour_preserving"),
+               "origin": "independent sub-agent asked for behaviour-preserving refactorings (negative controls)",
+               "confirmed_by_me": "git apply patch.diff && cargo test --offline --workspace --no-fail-fast: %d passed, %d failed" % (p, f)},
+              open(os.path.join(dst, "meta.json"), "w", encoding="utf-8"), indent=1, ensure_ascii=False)
+    return 0
+
+
+def neg_detect(ids):
+    """Every check must stay silent on every stored refactoring."""
+    all_ids = sorted(x for x in os.listdir(NEG) if os.path.exists(os.path.join(NEG, x, "patch.diff")))
+    if ids:
+        all_ids = [i for i in all_ids if i in ids]
+    manifest = json.load(open(os.path.join(HERE, "MANIFEST.json")))
+    props = [c["property_id"] for c in manifest["checks"]]
+    results_path = os.path.join(NEG, "RESULTS.json")
+    results = json.load(open(results_path)) if os.path.exists(results_path) else {}
+
+    def one(rid):
+        d = scratch()
+        res = {}
+        try:
+            rc, out = apply(d, os.path.join(NEG, rid, "patch.diff"))
+            if rc != 0:
+                return rid, {"error": "does not apply"}
+            for p in props:
+                env = dict(os.environ, VERIF_REPO=d, VERIF_EVID_DIR=os.path.join(d, ".evid"))
+                rc, out = sh([os.path.join(HERE, "check"), p], cwd=HERE, env=env)
+                if rc != 0:
+                    fired = [ln.strip() for ln in out.splitlines() if "[VIOLATION]" in ln or "[UNDECIDABLE]" in ln or ln.startswith("ERROR")]
+                    res[p] = [f[:300] for f in fired] or ["rc=%d %s" % (rc, out[-200:])]
+        finally:
+            shutil.rmtree(d, ignore_errors=True)
+        return rid, res
+    n_alarm = 0
+    with ThreadPoolExecutor(max_workers=6) as ex:
+        for rid, res in ex.map(one, all_ids):
+            results[rid] = res
+            if res:
+                n_alarm += 1
+                k = sorted(res)[0]
+                print("%-8s FALSE-ALARM %s: %s" % (rid, ",".join(sorted(res)), (res[k][0] if isinstance(res[k], list) else res[k])[:220]))
+            else:
+                print("%-8s silent" % rid)
+    json.dump(results, open(results_path, "w", encoding="utf-8"), indent=1, ensure_ascii=False, sort_keys=True)
+    print("%d refactorings, %d raise an alarm" % (len(all_ids), n_alarm))
+
+
+def recheck(prop, ids):
+    """For the thorough tier: re-apply stored patches and run one property's check; prints `<id> caught|missed|stale`."""
+    def one(sid):
+        d = scratch()
+        try:
+            rc, out = apply(d, os.path.join(SEEDED, sid, "patch.diff"))
+            if rc != 0:
+                return sid, "stale", ""
+            env = dict(os.environ, VERIF_REPO=d, VERIF_EVID_DIR=os.path.join(d, ".evid"))
+            env.pop("VERIF_TIER", None)
+            rc, out = sh([os.path.join(HERE, "check"), prop, "--tier", "quick"], cwd=HERE, env=env)
+            fired = [ln.strip() for ln in out.splitlines() if "[VIOLATION]" in ln or "[UNDECIDABLE]" in ln]
+            return sid, ("caught" if rc == 1 else "missed"), (fired[0][:160] if fired else "")
+        finally:
+            shutil.rmtree(d, ignore_errors=True)
+    with ThreadPoolExecutor(max_workers=8) as ex:
+        for sid, st, msg in ex.map(one, ids):
+            print("%s %s %s" % (sid, st, msg))
+
+
 def table():
     results = json.load(open(os.path.join(SEEDED, "RESULTS.json")))
     n = c = a = 0
@@ -197,6 +288,14 @@ def main():
     b.add_argument("--ids")
     b.add_argument("--props")
     sub.add_parser("table")
+    n1 = sub.add_parser("neg-ingest")
+    n1.add_argument("src")
+    n1.add_argument("rid")
+    n2 = sub.add_parser("neg-detect")
+    n2.add_argument("--ids")
+    c = sub.add_parser("recheck")
+    c.add_argument("--prop")
+    c.add_argument("--ids")
     args = ap.parse_args()
     if args.cmd == "ingest":
         return ingest(args.src, args.sid)
@@ -204,6 +303,12 @@ def main():
         return detect(set(args.ids.split(",")) if args.ids else None, args.props.split(",") if args.props else None)
     if args.cmd == "table":
         return table()
+    if args.cmd == "neg-ingest":
+        return neg_ingest(args.src, args.rid)
+    if args.cmd == "neg-detect":
+        return neg_detect(set(args.ids.split(",")) if args.ids else None)
+    if args.cmd == "recheck":
+        return recheck(args.prop, args.ids.split(","))
     ap.print_help()
 
 
